@@ -2,7 +2,7 @@
    differ from the code by one realistic edit, each refuted against the specification by a concrete witness (vm_compute +
    the reflection theorems of SpecThm.v).  These are the seeded changes listed in notes/C04.md; bin/check C04 finds the same
    witnesses on a worktree that carries the edit.  Not part of any check verdict. *)
-From QT Require Import C04.Spec C04.SpecThm.
+From QT Require Import C04.Spec C04.SpecThm C04.ParThm.
 Open Scope string_scope.
 Open Scope list_scope.
 Open Scope nat_scope.
@@ -87,4 +87,17 @@ Lemma mutant_level_ge_1_refuted :
 Proof.
   exists two, "b", SelfVal. split; [|vm_compute; reflexivity].
   intros H. apply closes_cycle_b_spec in H. vm_compute in H. discriminate.
+Qed.
+
+(* a suspension point between check_loops and the store (gap = 1; e.g. `await self._sequence.cancel()` moved after the check):
+   two requests in flight, each checked before the other one's store, close a cycle together *)
+Lemma mutant_await_between_check_and_store_refuted :
+  exists g ts sched, quiet ts /\ acyclic_distinct g /\ ~ acyclic_distinct (fst (run_sched 1 g ts sched)).
+Proof.
+  exists [("a", None); ("b", None)],
+         [(OSet "a" (TExpr (PortVal "b")), Pre 0); (OSet "b" (TExpr (PortVal "a")), Pre 0)],
+         [0; 1; 0; 1].
+  split; [repeat constructor|]. split.
+  - apply acyclic_b_spec. vm_compute. reflexivity.
+  - intros H. apply acyclic_b_spec in H. vm_compute in H. discriminate.
 Qed.
